@@ -31,16 +31,33 @@ func (u *URL) formatSSH() string {
 		result = fmt.Sprintf("%s@%s", u.User, result)
 	}
 
-	// Add port if present.
-	if u.Port != 0 {
-		result = fmt.Sprintf("%s:%d", result, u.Port)
+	// Compute the format without a port specification.
+	withoutPort := fmt.Sprintf("%s:%s", result, u.Path)
+
+	// Add the port if present. A port of zero (which means "no port specified")
+	// is normally left out, but it has to be printed if leaving it out would
+	// change the way that the result is parsed: either because the path begins
+	// with something that would be read as a port specification, or because
+	// the result would be classified as a Docker URL.
+	if u.Port != 0 || pathBeginsWithPortLikePrefix(u.Path) || isDockerURL(withoutPort) {
+		return fmt.Sprintf("%s:%d:%s", result, u.Port, u.Path)
 	}
 
-	// Add path.
-	result = fmt.Sprintf("%s:%s", result, u.Path)
-
 	// Done.
-	return result
+	return withoutPort
+}
+
+// pathBeginsWithPortLikePrefix returns whether or not a path begins with a
+// (possibly empty) sequence of ASCII digits followed by a colon, i.e. with
+// something that parseSCPSSH would try to interpret as a port specification.
+func pathBeginsWithPortLikePrefix(path string) bool {
+	for i := 0; i < len(path); i++ {
+		if '0' <= path[i] && path[i] <= '9' {
+			continue
+		}
+		return path[i] == ':'
+	}
+	return false
 }
 
 // invalidDockerURLFormat is the value returned by formatDocker when a URL is
